@@ -423,7 +423,10 @@ def run_check(pid, tier="quick", seed=None, replay=None):
     violations = []      # (replay_path, suffix)
     known_hits = {}
     breaks = []          # (kind, description)
-    ev = dict(property_id=pid, tier=tier, seed=seed, level=spec.get("level", "proof"), coverage={}, assumptions=list(spec.get("assumptions", [])),
+    level = spec.get("level", "proof")
+    if level not in ("exploration", "fault_enumeration", "model_checking", "proof", "translation_validation", "other"):
+        level = "proof"   # e.g. "partial": a proof-level claim whose scope restriction is stated in level_text / partial
+    ev = dict(property_id=pid, tier=tier, seed=seed, level=level, coverage={}, assumptions=list(spec.get("assumptions", [])),
               wall_s=0.0, violations=0)
     cov = ev["coverage"]
 
